@@ -13,7 +13,7 @@ for c in m['checks']:
     c['level_claimed']['category'] = p['level']
     c['level_note'] = ("Trusted: qv (VC generation, SMT prelude / domain axioms, its induction principle), z3 4.8.12 / z3 5.1.0 / cvc5 1.0, go/types. int as mathematical "
                        "integers, float64 as reals (no rounding / NaN / Inf beyond definedness obligations). The remaining assumed contracts (copiedWithPatchOf, "
-                       "initConcatResultTensor, consumersFirst) are each backed by a bounded stand-in; definitions, paper lemmas and every assumption are listed in the "
+                       "initConcatResultTensor) are each backed by a bounded stand-in; definitions, paper lemmas and every assumption are listed in the "
                        "evidence file." + (" Bounded stand-ins: " + "; ".join(b['test'] for b in p['bounded']) + "." if p['bounded'] else ""))
 json.dump(m, open('/verif/MANIFEST.json', 'w'), indent=1)
 try:
